@@ -34,6 +34,9 @@ struct vs_config {
     int trace;                  /* 1: print one line per step to the trace stream */
     int pct_depth;              /* >0: PCT priorities with this many change points (over max_steps/16 steps) */
     int events;                 /* 1: print "T <tid> create <new>" / "T <tid> exit" / "T <tid> joined <target>" lines (stdout) */
+    uint64_t clock_step;        /* ticks the virtual clock advances per clock read (0 = 1): larger steps shorten busy-wait delay loops */
+    size_t pct_aging;           /* >0: under PCT the running thread drops to the lowest priority every pct_aging steps, so that no
+                                   enabled thread is starved for ever (PCT alone is unfair; a starved thread is not a hang of the code) */
 };
 
 #define VS_DEFAULT_MASK ((1u<<VS_LOCK)|(1u<<VS_PREWAIT)|(1u<<VS_WAIT)|(1u<<VS_EVWAIT)|(1u<<VS_CREATE)|(1u<<VS_JOIN)|(1u<<VS_SLEEP)|(1u<<VS_DEV)|(1u<<VS_EXIT))
